@@ -47,7 +47,7 @@ func QUICConfig(server bool, idle time.Duration) *quic.Config {
 type Listener struct {
 	mu   sync.Mutex
 	udp  *net.UDPConn
-	ql   *quic.Listener
+	ql   Acceptor
 	tr   *transferquic.QUICTransport
 	idle time.Duration
 }
@@ -57,12 +57,34 @@ func NewListener(idle time.Duration) (*Listener, error) {
 	if err != nil {
 		return nil, err
 	}
-	ql, err := quictransport.ListenWithConfig(context.Background(), udp, Quiet, QUICConfig(true, idle))
+	ql, tr, err := ListenApp(udp, QUICConfig(true, idle))
 	if err != nil {
 		udp.Close()
 		return nil, err
 	}
-	return &Listener{udp: udp, ql: ql, tr: transferquic.NewListener(ql, Quiet), idle: idle}, nil
+	return &Listener{udp: udp, ql: ql, tr: tr, idle: idle}, nil
+}
+
+// Acceptor is what the harness needs from the listener the repository's
+// wrapper returns (quic-go's Listener and EarlyListener both satisfy it).
+type Acceptor interface {
+	Accept(context.Context) (*quic.Conn, error)
+	Close() error
+	Addr() net.Addr
+}
+
+// ListenApp creates the listener the way the receiver application does
+// (quictransport.ListenWithTransport on a quic.Transport over the socket) and
+// wraps it with transferquic.NewListener. The static type of the listener is
+// whatever the repository's wrapper returns, so the harness keeps building
+// when that type changes. Use either the Acceptor (raw connections) or the
+// transport (wrapped connections), not both, on one listener.
+func ListenApp(udp net.PacketConn, cfg *quic.Config) (Acceptor, *transferquic.QUICTransport, error) {
+	ql, err := quictransport.ListenWithTransport(context.Background(), &quic.Transport{Conn: udp}, Quiet, cfg)
+	if err != nil {
+		return nil, nil, err
+	}
+	return ql, transferquic.NewListener(ql, Quiet), nil
 }
 
 func (l *Listener) Addr() *net.UDPAddr { return l.udp.LocalAddr().(*net.UDPAddr) }
